@@ -30,7 +30,7 @@ TYPES = ["gene", "mRNA", "exon", "CDS"]
 
 def budget(tier):
     if tier == "quick":
-        return {"runs": 2400, "wall": 50, "chunk": 8}
+        return {"runs": 1600, "wall": 90, "chunk": 8}
     return {"runs": 90000, "wall": 1500, "chunk": 8}
 
 
@@ -75,7 +75,11 @@ def gen(rng, tier):
         r = rng.random()
         if r < 0.3:
             # define a formerly dangling parent
-            new = [mf(["chr1", "src", "gene", 1, 50, ".", "+", "."], [["ID", [rng.choice(["zz", "yy"])]]])]
+            attrs0 = [["ID", [rng.choice(["zz", "yy"])]]]
+            if rng.random() < 0.6 and names:
+                # ... and be the middle link of a chain whose ends are already stored
+                attrs0.append(["Parent", [rng.choice([x for x in names if x not in ("zz", "yy")] or ["n0"])]])
+            new = [mf(["chr1", "src", "mRNA", 1, 50, ".", "+", "."], attrs0)]
             if new[0]["attrs"][0][1][0] in names:
                 new = []
             else:
@@ -95,7 +99,8 @@ def gen(rng, tier):
         wr = [i for i, s in enumerate(steps) if s["op"] in ("create", "update")]
         fault = {"step": rng.choice(wr), "kind": rng.choice(["fs.write", "fs.tmpname", "fs.open", "fs.close", "fs.read", "fs.unlink"]),
                  "nth": rng.choice([0, 0, 1, 2]), "mode": rng.choice(["error", "error", "crash"])}
-    return {"steps": steps, "fault": fault, "qseed": rng.getrandbits(32)}
+    return {"steps": steps, "fault": fault, "qseed": rng.getrandbits(32), "fault_profile": rng.random() < 0.1,
+            "fault_seed": rng.getrandbits(32)}
 
 
 def check_store(model, node, w, call, V, where, qrng, deep=True):
@@ -120,6 +125,32 @@ def check_store(model, node, w, call, V, where, qrng, deep=True):
                 return False
     if not deep:
         return True
+    # several children()/parents() generators alive on the one handle, advanced alternately
+    if len(ids) >= 2:
+        qs = []
+        for i in qrng.sample(ids, min(len(ids), qrng.choice([2, 3]))):
+            kw = {}
+            if qrng.random() < 0.5:
+                kw["level"] = qrng.choice([1, 2])
+            qs.append({"m": qrng.choice(["children", "parents"]), "args": [i], "kw": kw})
+        if qrng.random() < 0.5:
+            qs.append(dict(qs[0]))
+        alone = []
+        for q in qs:
+            r = call(node, dict(q, op="read", h="h"))
+            alone.append(r["out"] if r["ok"] else None)
+        if all(a is not None for a in alone):
+            sched = [qrng.randrange(len(qs)) for _ in range(qrng.randint(2, 20))]
+            r = call(node, {"op": "interleave", "h": "h", "queries": qs, "schedule": sched})
+            if not r["ok"]:
+                V.append(viol("C02.interleaved", "%s: interleaved children()/parents() raised %s: %s" % (where, r["exc"], r["msg"]),
+                              kind="interleave_failed"))
+                return False
+            for q, a, b in zip(qs, alone, r["outs"]):
+                if sorted(a) != sorted(b):
+                    V.append(viol("C02.interleaved", "%s: %s(%r, %r) yields %r while another relation query is being iterated on the handle, "
+                                  "%r alone" % (where, q["m"], q["args"][0], q["kw"], b, a), kind="interleaved_differs"))
+                    return False
     # level=None union, featuretype filters, each once, never itself, inverse
     for i in qrng.sample(ids, min(len(ids), 4)):
         for m in ("children", "parents"):
@@ -239,6 +270,18 @@ def run(case):
             check_store(model, obs, w, call, V, "fresh process at end", qrng, deep=False)
             obs.close()
         out["stats"] = w.stats
+    if case.get("fault_profile") and not V and not fault:
+        # the same import+update history under source failures / sql errors / cancels / crashes inside the updates
+        # (relaxed C10-style oracle): the graph law must hold in whatever state the store is left
+        from checks import c10
+        steps = [dict(s, strategy="error") for s in case["steps"] if s["op"] in ("create", "update", "reopen", "restart")]
+        if len(steps[0].get("feats", [])) <= 40:
+            vs, st2, pr2 = c10.fault_profile(steps, {}, case["fault_seed"], "C02.faulted")
+            V.extend(vs)
+            c10._merge_stats(out["stats"], st2)
+            for k2, v2 in pr2.items():
+                probes["faulted_" + k2] = probes.get("faulted_" + k2, 0) + v2
+            journal.append(("fault_profile", len(vs)))
     out["trace_hash"] = core.digest(journal)
     out["nontrivial"] = any(l == 2 for _, _, l in model.rel)
     out["sample"] = {"steps": [dict(op=s["op"], lines=G.lines_of(s.get("feats", []))[:8], form=s.get("form")) for s in case["steps"]],
